@@ -230,12 +230,20 @@ def map_findings(funcs, findings, pos, spans):
                 checks.append(("bool", at[p], v, f))
             else:
                 unmapped.append(f)
-        elif f.id in ("oppositeInnerCondition", "identicalConditionAfterEarlyExit", "unsignedLessThanZero"):
+        elif f.id in ("unsignedLessThanZero", "unsignedPositive"):
+            # only the strict forms are verdicts ("x < 0" false, "x >= 0" true); "x <= 0" gets the same message
+            e = site_e.get(at.get(p))
+            zero = lambda o: o.kind == "num" and o.v == 0
+            if e is not None and e.kind == "bin" and ((e.op == "<" and zero(e.b)) or (e.op == ">" and zero(e.a))) and f.id == "unsignedLessThanZero":
+                checks.append(("bool", at[p], False, f))
+            elif e is not None and e.kind == "bin" and ((e.op == ">=" and zero(e.b)) or (e.op == "<=" and zero(e.a))) and f.id == "unsignedPositive":
+                checks.append(("bool", at[p], True, f))
+        elif f.id in ("oppositeInnerCondition", "identicalConditionAfterEarlyExit"):
             if p in at:
                 checks.append(("bool", at[p], False, f))
             else:
                 unmapped.append(f)
-        elif f.id in ("identicalInnerCondition", "unsignedPositive"):
+        elif f.id in ("identicalInnerCondition",):
             if p in at:
                 checks.append(("bool", at[p], True, f))
             else:
@@ -460,7 +468,8 @@ def classify_program_violation(f, fn, expr):
     ptype = {n: t for t, n, _ in fn.params}
     if f.id == "comparisonError":
         # recorded: the constant is the left operand and the operator is not mirrored
-        if expr.kind == "bin" and expr.op in ("<", "<=", ">", ">=") and expr.a.kind == "num" and expr.b.kind == "bin" and expr.b.op in "&|":
+        if expr.kind == "bin" and expr.op in ("<", "<=", ">", ">=") and not any(n.kind == "var" for n in expr.a.walk()) \
+                and expr.b.kind == "bin" and expr.b.op in "&|":
             return "comparison-constant-on-left-not-mirrored"
         return None
     if f.id in ("knownConditionTrueFalse", "knownArgument", "identicalInnerCondition", "oppositeInnerCondition", "incorrectLogicOperator",
@@ -484,13 +493,22 @@ def classify_program_violation(f, fn, expr):
             if (st.kind == "incdec" or (st.kind == "assign" and st.op in ("+=", "-="))) and allt.get(st.name, "").startswith("unsigned") \
                     and mentions(expr, st.name):
                 return "vf-unsigned-incdec-bounds-no-wrap"
+        # (4) a break inside a loop is taken as leaving the enclosing scopes: the negated guard of the break (or of an
+        #     `if` around the loop with the break) is assumed after them
+        def has_break(stmts):
+            return any(st.kind == "break" for st in walk_stmts(stmts))
+        evars = {n.name for n in expr.walk() if n.kind == "var"}
+        for st in walk_stmts(fn.body):
+            if st.kind == "if" and has_break(st.then) and evars & {n.name for n in st.c.walk() if n.kind == "var"}:
+                return "vf-break-treated-as-scope-exit"
         # (3) a narrower variable initialised/assigned from a wider expression and both used in the condition:
         #     the symbolic value "u == x" survives the truncating assignment
         for st in walk_stmts(fn.body):
-            if st.kind in ("decl", "assign") and getattr(st, "op", "=") == "=" and allt.get(st.name) == "unsigned char" and mentions(expr, st.name):
+            if st.kind in ("decl", "assign") and getattr(st, "op", "=") == "=" and allt.get(st.name) in ("unsigned char", "unsigned") and mentions(expr, st.name) \
+                    and st.e.kind != "num":
                 for n in st.e.walk():
-                    if n.kind == "var" and allt.get(n.name) in ("int", "unsigned", "signed char") and st.e.kind == "var" and mentions(expr, n.name):
-                        return "vf-symbolic-across-narrowing-assignment"
+                    if n.kind == "var" and allt.get(n.name) in ("int", "unsigned", "signed char"):
+                        return "vf-narrowing-assignment-not-truncated"
     return None
 
 
@@ -559,7 +577,7 @@ def check(run, replay):
         per = 60 if quick else 100
         tot = {}
         seen_pre = set()
-        shrinks = [6 if quick else 60]
+        shrinks = [2 if quick else 60]
         for rd in range(rounds):
             stats, bad, unmapped, findings = run_programs(run, per, work, "prog%d" % rd)
             for k, v in stats.items():
@@ -576,9 +594,10 @@ def check(run, replay):
                     continue
                 seen_pre.add(pre)
                 g, b = fn, None
-                if shrinks[0] > 0:
+                known_pre = classify_program_violation(f, fn, expr) is not None
+                if shrinks[0] > 0 and not (quick and known_pre):
                     shrinks[0] -= 1
-                    g, b = shrink(copy.deepcopy(fn), f.id, work, budget=50 if quick else 200)
+                    g, b = shrink(copy.deepcopy(fn), f.id, work, budget=40 if quick else 200)
                 if b is None:
                     g, b = fn, (f, fn, inp, what, expr)
                 f2, fn2, inp2, what2, expr2 = b
